@@ -316,6 +316,18 @@ def run(ctx):
     dist["skipped_unsupported"] = skipped
     res = coqio.run_cases(ctx.scratch, "c08", IMPORTS, "case_t", cases,
                           {"tie": "tie_ok", "pair": "spec_pair", "ctx": "spec_ctx"}, extra=EXTRA, shard=400, timeout=1500)
+    # how many generated values lie inside the domains of the three positive theorems (computable checkers of
+    # Proofs/HashDom.v, proved sound there); statistics only
+    try:
+        dom = coqio.run_cases(ctx.scratch, "c08dom", IMPORTS + ["Proofs.HashDom"], "pyval",
+                              [hm.term(m["m1"]) for m in meta],
+                              {"acyclic": "fun v => fst (fst (in_domains v))",
+                               "sortable": "fun v => snd (fst (in_domains v))",
+                               "inj_dom": "fun v => snd (in_domains v)"}, shard=2000, timeout=900)
+        dist["in_domain_of"] = {k: len(meta) - len(v) for k, v in dom.items()}
+        dist["in_domain_of"]["all_three"] = len(meta) - len(set().union(*[set(v) for v in dom.values()]))
+    except Exception as e:  # pragma: no cover
+        dist["in_domain_of"] = "not computed: %r" % (e,)
     out = Outcome(evaluations=evaluations, distinct_nontrivial=nontrivial, rule=RULE,
                   samples=[{"mutation": m["name"], "v1": m["m1"], "v2": m["m2"], "digest1": m["d1"], "digest2": m["d2"]}
                            for m in meta[:4]],
